@@ -114,8 +114,8 @@ impl Lsp {
         lsp.notify("initialized", json!({}));
         let t0 = std::time::Instant::now();
         while !lsp.logs.iter().any(|l| l.contains("Indexed")) {
-            if t0.elapsed() > Duration::from_secs(30) {
-                return Err("the server did not report the workspace scan within 30 s".into());
+            if t0.elapsed() > Duration::from_secs(180) {
+                return Err("the server did not report the workspace scan within 180 s".into());
             }
             match lsp.rx.recv_timeout(Duration::from_millis(200)) {
                 Ok(Some(m)) => lsp.handle_incoming(m),
@@ -176,7 +176,7 @@ impl Lsp {
                     if !self.send(&json!({"jsonrpc": "2.0", "method": "$/verifPoke", "params": {}})) {
                         return Err(LspErr::Dead);
                     }
-                    if t0.elapsed() > Duration::from_secs(30) {
+                    if t0.elapsed() > Duration::from_secs(180) {
                         return Err(LspErr::Timeout);
                     }
                 }
@@ -1461,7 +1461,7 @@ fn judge(out: &mut Out, doc: &str, op: &str, text: &str, before: &Canon, reply: 
             None
         }
         Reply::Timeout => {
-            oracle_line(out, doc, op, "fail", "timeout", "no reply within 30 s");
+            oracle_line(out, doc, op, "fail", "timeout", "no reply within 180 s");
             None
         }
         Reply::Error(e) => {
@@ -1673,7 +1673,8 @@ pub fn run(args: &Args) -> i32 {
     let mut sessions = Sessions { bin, roots: roots.clone(), live: BTreeMap::new(), restarts: 0, counter: 0 };
     let web_root = roots.join("web");
     std::fs::create_dir_all(&web_root).expect("web root");
-    let web_state = WebIdeState::new(Some(web_root));
+    // fixed clock: the editor session never expires during a long run
+    let web_state = WebIdeState::verif_with_clock(Some(web_root), std::sync::Arc::new(|| 1_000));
     let session = match web_state.create_session(IdeRole::Editor) {
         Ok(s) => s,
         Err(e) => {
